@@ -124,9 +124,9 @@ def extract(repo=REPO, log=lambda m: print('[extract] ' + m, file=sys.stderr)):
                                % (len(files), missing))
         with open(ok, 'w') as fh:
             fh.write('%d files in %.1fs\n' % (len(files), dt))
-        # keep the cache small: retain the 6 most recent fact dirs
+        # keep the cache small: retain the 16 most recent fact dirs
         dirs = sorted(glob.glob(os.path.join(CACHE, 'facts', '*')), key=os.path.getmtime)
-        for d in dirs[:-6]:
+        for d in dirs[:-16]:
             shutil.rmtree(d, ignore_errors=True)
         return out, h, {'cached': False, 'seconds': dt, 'files': len(files)}
     finally:
